@@ -1,10 +1,11 @@
 (* Store.v -- the cache back ends (internal/caching/backends/{fs,remote_wrapper,s3}.go), the CAS layer
-   with its exists-memo (caching/cas.go) and the target-result cache (caching/target_cache.go).
+   with its exists-memo and its stored-memo (caching/cas.go) and the target-result cache (caching/target_cache.go).
    Model only; proofs are in Store_proofs.v.
 
    Layer 1 (C07): the local file-system back end at the granularity of its file-system calls.
      fs.Set  = MkdirAll ; CreateTemp "tmp-*" ; Write* ; Close ; Rename ; deferred Remove(tmp)
-     Cas.Write = Exists (memo, else Stat) ; [Set] ; memo
+     Cas.Write = isStored (memo, else Stat) ; [Set] ; memo      (over the local back end alone the two memos of
+       caching.Cas hold the same digests unless Cas.Exists is called on its own, which no build does: one list)
      a build's cache traffic = per executed target  blob writes* ; tree write ; result write,
      arbitrarily interleaved between targets; a crash is a prefix of the interleaved step list,
      a fault makes one step fail (the code's error path then runs).
@@ -225,7 +226,8 @@ Record world := mkW {
   locA : fsmap;
   locB : fsmap;
   rem : fsmap;
-  wmemo : machine -> mode -> list key;      (* exists-memo of the Cas object of (machine, back end) *)
+  wmemo : machine -> mode -> list key;      (* exists-memo (keyExistsCache) of the Cas object of (machine, back end) *)
+  wstored : machine -> mode -> list key;    (* stored-memo (keyStoredCache): digests known to be in EVERY store of the back end *)
   rfl : list rfault;
   lfl : list lfault
 }.
@@ -234,10 +236,11 @@ Definition loc (w : world) (m : machine) : fsmap := match m with MA => locA w | 
 
 Definition set_loc (w : world) (m : machine) (f : fsmap) : world :=
   match m with
-  | MA => mkW f (locB w) (rem w) (wmemo w) (rfl w) (lfl w)
-  | MB => mkW (locA w) f (rem w) (wmemo w) (rfl w) (lfl w)
+  | MA => mkW f (locB w) (rem w) (wmemo w) (wstored w) (rfl w) (lfl w)
+  | MB => mkW (locA w) f (rem w) (wmemo w) (wstored w) (rfl w) (lfl w)
   end.
-Definition set_rem (w : world) (f : fsmap) : world := mkW (locA w) (locB w) f (wmemo w) (rfl w) (lfl w).
+Definition set_rem (w : world) (f : fsmap) : world :=
+  mkW (locA w) (locB w) f (wmemo w) (wstored w) (rfl w) (lfl w).
 
 Definition machine_eqb (a b : machine) := match a, b with MA, MA | MB, MB => true | _, _ => false end.
 Definition mode_eqb (a b : mode) := match a, b with Local, Local | Wrapped, Wrapped => true | _, _ => false end.
@@ -245,14 +248,19 @@ Definition mode_eqb (a b : mode) := match a, b with Local, Local | Wrapped, Wrap
 Definition add_wmemo (w : world) (m : machine) (md : mode) (d : key) : world :=
   mkW (locA w) (locB w) (rem w)
       (fun m' md' => if machine_eqb m' m && mode_eqb md' md then d :: wmemo w m' md' else wmemo w m' md')
+      (wstored w) (rfl w) (lfl w).
+Definition add_wstored (w : world) (m : machine) (md : mode) (d : key) : world :=
+  mkW (locA w) (locB w) (rem w) (wmemo w)
+      (fun m' md' => if machine_eqb m' m && mode_eqb md' md then d :: wstored w m' md' else wstored w m' md')
       (rfl w) (lfl w).
 Definition reset_memo (w : world) (m : machine) : world :=
-  mkW (locA w) (locB w) (rem w) (fun m' md' => if machine_eqb m' m then [] else wmemo w m' md') (rfl w) (lfl w).
+  mkW (locA w) (locB w) (rem w) (fun m' md' => if machine_eqb m' m then [] else wmemo w m' md')
+      (fun m' md' => if machine_eqb m' m then [] else wstored w m' md') (rfl w) (lfl w).
 
 Definition next_rf (w : world) : rfault * world :=
-  (hd FNone (rfl w), mkW (locA w) (locB w) (rem w) (wmemo w) (tl (rfl w)) (lfl w)).
+  (hd FNone (rfl w), mkW (locA w) (locB w) (rem w) (wmemo w) (wstored w) (tl (rfl w)) (lfl w)).
 Definition next_lf (w : world) : lfault * world :=
-  (hd LOk (lfl w), mkW (locA w) (locB w) (rem w) (wmemo w) (rfl w) (tl (lfl w))).
+  (hd LOk (lfl w), mkW (locA w) (locB w) (rem w) (wmemo w) (wstored w) (rfl w) (tl (lfl w))).
 
 (* ---- FileSystemCache at call granularity (Layer 1 shows Set is atomic w.r.t. visibility) *)
 Definition fs_get (w : world) (m : machine) (p : path) (k : key) : res :=
@@ -316,6 +324,11 @@ Definition w_set (w : world) (m : machine) (p : path) (k : key) (b : bytes) : re
 Definition w_exists (w : world) (m : machine) (p : path) (k : key) : res * world :=
   if is_some (lookup (loc w m) p k) then (RTrue, w) else r_head w p k.
 
+(* ExistsEverywhere (backends.FullExistenceChecker): local AND remote; the remote is asked only when the
+   local store has the key *)
+Definition w_exists_all (w : world) (m : machine) (p : path) (k : key) : res * world :=
+  if is_some (lookup (loc w m) p k) then r_head w p k else (RFalse, w).
+
 Definition w_delete (w : world) (m : machine) (p : path) (k : key) : res * world :=
   let w1 := set_loc w m (remove (loc w m) p k) in
   (ROk, set_rem w1 (remove (rem w1) p k)).
@@ -339,17 +352,29 @@ Definition cas_exists (w : world) (m : machine) (md : mode) (d : key) : res * wo
        | o => (o, w1)
        end.
 
+(* Cas.isStored: may the write be skipped?  The stored-memo, else ExistsEverywhere when the back end
+   implements FullExistenceChecker (the wrapper), else Cas.Exists (the local back end: one store); an
+   error or "missing somewhere" means no *)
+Definition cas_stored (w : world) (m : machine) (md : mode) (d : key) : bool * world :=
+  if str_in d (wstored w m md) then (true, w)
+  else let (r, w1) := match md with
+                      | Wrapped => w_exists_all w m PCas d
+                      | Local => cas_exists w m md d
+                      end in
+       match r with
+       | RTrue => (true, add_wstored w1 m md d)
+       | _ => (false, w1)
+       end.
+
 Definition cas_write (w : world) (m : machine) (md : mode) (d : key) (b : bytes) : res * world :=
-  let (r, w1) := cas_exists w m md d in
-  match r with
-  | RTrue => (ROk, w1)                          (* exists && err == nil: skip *)
-  | _ =>
-      let (r2, w2) := b_set w1 m md PCas d b in
-      match r2 with
-      | ROk => (ROk, add_wmemo w2 m md d)
-      | o => (o, w2)
-      end
-  end.
+  let (s, w1) := cas_stored w m md d in
+  if s then (ROk, w1)                           (* in every store: skip *)
+  else
+    let (r2, w2) := b_set w1 m md PCas d b in
+    match r2 with
+    | ROk => (ROk, add_wstored (add_wmemo w2 m md d) m md d)
+    | o => (o, w2)
+    end.
 
 Inductive action :=
 | AGet (p : path) (k : key)            (* backend.Get; Cas.Load = AGet PCas; TargetResultCache.Load = AGet PTarget *)
@@ -392,7 +417,7 @@ Fixpoint run_trace (w : world) (ops : list wop) : list (res * world) :=
   end.
 
 Definition empty_world (rf : list rfault) (lf : list lfault) : world :=
-  mkW [] [] [] (fun _ _ => []) rf lf.
+  mkW [] [] [] (fun _ _ => []) (fun _ _ => []) rf lf.
 
 (* what one target publishes through the wrapper: its blobs, then its result *)
 Definition publish (m : machine) (blobs : list (key * bytes)) (k : key) (r : bytes) : list wop :=
@@ -400,7 +425,16 @@ Definition publish (m : machine) (blobs : list (key * bytes)) (k : key) (r : byt
 
 Definition is_ok (r : res) : bool := match r with ROk => true | _ => false end.
 
-(* guard of C08_no_dangling_partial: every blob of the local cache is also in the remote *)
+(* guard of C08_no_dangling: every digest the writing process remembers as stored is in the remote
+   (true of a new process, whose memo is empty, and kept by every op that does not delete) *)
+Definition stored_in_remote (w : world) (m : machine) : bool :=
+  forallb (fun d => is_some (lookup (rem w) PCas d)) (wstored w m Wrapped).
+
+(* the class of histories of the repaired finding C08-F1, kept for the check (driver command `guard`): every
+   blob of the local cache is also in the remote; it was the guard of the former C08_no_dangling_partial *)
 Definition cas_entry_mirrored (rm : fsmap) (e : (path * key) * bytes) : bool :=
   match fst (fst e) with PCas => is_some (lookup rm PCas (snd (fst e))) | _ => true end.
 Definition local_sub_remote (w : world) (m : machine) : bool := forallb (cas_entry_mirrored (rem w)) (loc w m).
+
+Definition is_delete (o : wop) : bool :=
+  match o with Do _ _ (ADelete _ _) => true | _ => false end.
